@@ -270,5 +270,31 @@ PROPS["C07"] = {
     "assumptions": [],
 }
 
+PROPS["C16"] = {
+    "package": "c16", "exe": "m_c16",
+    "rule": "delegated role names: every string of length <= 2 (quick) / <= 4 (thorough) over {/ \\ . % ? # : space 0x01 a 2 "
+            "e-acute}, 500 sampled names of length 3..4 (quick), random names of length 5..64 (incl. emoji, tab, quote), the "
+            "special names '.', '..', 'x.json', 'a%2Fb' vs 'a/b', '%2e%2e', '../../x', '/abs', 'C:\\x', '1.targets', ... and the "
+            "reserved family (N.root, root, timestamp, snapshot, targets), each under both consistent-snapshot settings and "
+            "several versions. Per name: Role::filename (what the editor writes), the URL path the client requests, the "
+            "datastore entry, the entry Repository::cache writes, and whether anything appeared outside the datastore / "
+            "cache directories (their parents are watched). Every case is non-trivial; pairwise distinctness is checked "
+            "over the whole run by the driver (a map from file name to role name).",
+    "exhaustive": {"quick": True, "thorough": True},
+    "explanation": "Theorems (Tough/Props/C16.lean): encoded names use only [A-Za-z0-9_.~-%]; percent-decoding is a left "
+                   "inverse, so the encoding is injective; a role file name has no '/', no NUL, is not empty, '.' or '..'; "
+                   "within one naming mode two delegated roles share a file only if they share the name (and version); "
+                   "under consistent snapshots a delegated file equals a root file only for the name 'root'; without them "
+                   "the name 'N.root' collides with version N of root (witness; known finding C16-N.root).",
+    "level_text": "Kernel-checked injectivity and plainness of the file naming for all byte strings and versions; exhaustive "
+                  "short names and random long names through editor naming, client, datastore and cache.",
+    "level_note": "Trusted: Lean kernel, standard axioms; url::Url::join and std::path::Path::join on a single plain segment "
+                  "(observed, not modelled); decimal formatting of versions (digits) checked by the correspondence. A delegated "
+                  "role carrying the very name of a top-level role is outside the statement ('two different role names') and "
+                  "only recorded.",
+    "trusted": ["modelled, not verified: percent_encoding::utf8_percent_encode, url::Url::join, std::path::Path::join"],
+    "assumptions": [],
+}
+
 _PENDING = "check under construction in this session (DESIGN.md §10 order of work); not claimed until it runs"
 NOT_APPLICABLE = {f"C{i:02d}": _PENDING for i in range(1, 21)}
